@@ -352,6 +352,17 @@ class Units:
                     u = self.param_unit(target, i)
                     if u and i - 1 < len(t["args"]):
                         out.append((u, t["args"][i - 1], "argument `%s` of %s" % (target.local_name(i), target.name), t["line"]))
+            inst = cal.get("inst") or ""
+            if t["args"] and ("(u32, u32) as std::convert::Into<frontend::source_range::SourceLocation>" in inst
+                              or "frontend::source_range::SourceLocation as std::convert::From<(u32, u32)>" in inst):
+                # (line, column).into(): the pair is a location
+                SL = "frontend::source_range::SourceLocation"
+                for dd in fn.defs().get(op_local(t["args"][0]), []):
+                    if dd[0] == "stmt" and dd[3]["rv"].get("agg") == "tuple" and len(dd[3]["rv"]["ops"]) == 2:
+                        for o, nm in zip(dd[3]["rv"]["ops"], ("line", "column")):
+                            u = self.field_unit(SL, nm)
+                            if u:
+                                out.append((u, o, "SourceLocation.%s" % nm, t["line"]))
             if cal.get("def") == "std::mem::replace" and len(t["args"]) == 2:
                 # mem::replace(&mut x.f, v) writes v into the seeded field f
                 from .rules.common import ref_target_fields
